@@ -259,9 +259,24 @@ func checkC05(c *Check) {
 				bc, _ = ci.(*ssa.Call)
 			}
 			okB := bc != nil && bc.Common().Args[0] == m.CookieBuilder.Params[0] && bc.Common().Args[1] == m.CookieBuilder.Params[1]
-			if okB {
+			if okB && dirs != m.CookieBuilder {
 				dc, _, isC := asCall(resolveCell(stripConv(bc.Common().Args[2])))
 				okB = isC && dc.Common().StaticCallee() == dirs
+			} else if okB {
+				// the list is built in the builder itself: what reaches the encoder is the literal list, possibly grown by
+				// the (guarded) Max-Age append
+				for _, l := range Leaves(bc.Common().Args[2], leafOpts{noConcat: true}) {
+					l = resolveCell(stripConv(l))
+					if _, isLit := sliceLitElems(l); isLit {
+						continue
+					}
+					if ac, _, isC := asCall(l); isC {
+						if bi, isB := ac.Call.Value.(*ssa.Builtin); isB && bi.Name() == "append" {
+							continue
+						}
+					}
+					okB = false
+				}
 			}
 			c.Obl(okB, "C05.R4", "builder-shape", P.Pos(m.CookieBuilder.Pos()), "builder = Encode(name, value, directives(timeout))", "the cookie builder does not pass its name, value and the standard directives to the encoder")
 		}
